@@ -15,7 +15,7 @@ RULE = ("random shots (twist 0) with 1-4 wind segments (speeds 0-60 ft/s, opposi
         "until-distances), zero-speed == none, appended zero wind, split segment, causality beyond D, left-right mirror, "
         "signs vs the no-wind twin, and windage at every row against the RK4 reference; a case = (shot, relation); "
         "non-trivial when at least one wind with non-zero speed switches inside the range")
-MUST_OBSERVE = ["relations_checked", "rel_setter", "rel_permutation", "rel_zero_speed", "rel_append_zero", "rel_split", "rel_causality",
+MUST_OBSERVE = ["rel_max_distance_keyword", "relations_checked", "rel_setter", "rel_permutation", "rel_zero_speed", "rel_append_zero", "rel_split", "rel_causality",
                 "rel_mirror", "rel_sign_cross", "rel_sign_head_tail", "rel_reference", "reference_rows", "switch_inside_range",
                 "rel_differs_after_switch", "sign_drop_rows_judged"]
 ASSUMPTIONS = ["permutation is only required when all until-distances are distinct (ties have no defined order)",
@@ -102,6 +102,9 @@ def check_case(ctx, case):
     d = first_diff(base, via_setter)
     if d:
         ctx.violation("setter", f"winds assigned through Shot.winds differ from winds given to the constructor: row {d[0]} {d[1]} {d[2]!r} vs {d[3]!r}", cset)
+    # 0b a maximum distance beyond each wind's own until-distance is inert
+    if spec.get("wind_max_factor") and any(w[2] is not None for w in winds):
+        rel("max_distance_keyword", {k: v for k, v in spec.items() if k != "wind_max_factor"}, exact)
     # 1 permutation
     if len(winds) >= 2 and len(set(untils)) == len(untils):
         perm = list(reversed(winds)) if case["perm"] == "reverse" else winds[1:] + winds[:1]
@@ -285,6 +288,8 @@ def gen_case(rng):
         winds[-1][2] = None
     rng.shuffle(winds)
     s["winds"] = winds
+    if rng.random() < 0.2:
+        s["wind_max_factor"] = round(rng.uniform(1.05, 11.5), 3)     # every bounded wind also carries max_distance_feet = until x factor
     return {"shot": s, "range_ft": r_ft, "step_ft": r_ft / rng.choice([6, 12, 20]), "perm": rng.choice(["reverse", "rotate"]),
             "split_idx": rng.randint(0, 3), "split_frac": round(rng.uniform(0.1, 0.9), 3), "cause_idx": rng.randint(0, 3),
             "cause_add": rng.random() < 0.7, "cause_speed": round(rng.uniform(5, 60), 2), "cause_dir": round(rng.uniform(0, 360), 1),
